@@ -120,7 +120,8 @@ def _task(task):
     z_all = obs_all.copy()
     M = len(z_all)
     pw = np.array([N ** (T - 1 - t) for t in range(T)], dtype=np.int64)
-    key = jax.random.fold_in(jax.random.fold_in(jax.random.key(seed), cfg_id), T)
+    cfg_hash = sum((i + 1) * int(round(float(x) * 1000)) for i, x in enumerate(cfg)) % (2 ** 31 - 1)
+    key = jax.random.fold_in(jax.random.fold_in(jax.random.key(seed), cfg_hash), T)   # independent of the task order
     k_est, k_rw, k_ffbs = jax.random.split(key, 3)
 
     def guarded(f):
@@ -216,15 +217,16 @@ CHECK_DEADLOCK FALSE
 
 
 def run(prop_id, tier, seed, replay=None):
+    cfgs = _configs(tier)
+    if replay:      # read before the work directory (which may contain the replay file) is recreated
+        with open(replay) as f:
+            r = json.load(f)
+        cfgs = [tuple(r["detail"]["case"]["cfg"])]
+        seed = int(r.get("seed", seed))
     rep = vlib.Report(prop_id, tier, seed)
     wd = vlib.workdir(prop_id)
     maxT = 3 if tier == "quick" else 4
     ns = 4096 if tier == "quick" else 16384
-    cfgs = _configs(tier)
-    if replay:
-        with open(replay) as f:
-            r = json.load(f)
-        cfgs = [tuple(r["detail"]["case"]["cfg"])]
     tasks = []
     n0 = 0
     for ci, c in enumerate(cfgs):
@@ -233,10 +235,15 @@ def run(prop_id, tier, seed, replay=None):
                 continue
             tasks.append((ci, c, T, seed, ns, n0))
             n0 += c[0] ** T
-    by_cfg = {}
-    for t in tasks:
-        by_cfg.setdefault(t[0], []).append(t)
-    groups = sorted(by_cfg.values(), key=lambda g: -sum(t[1][0] ** t[2] for t in g))
+    # one process per (configuration, T): tracing/compiling dominates, so parallelism beats sharing the jax import;
+    # beyond 16 tasks (thorough) the lengths of one configuration share a process
+    if len(tasks) <= vlib.NCPU:
+        groups = [[t] for t in sorted(tasks, key=lambda t: -(t[1][0] ** t[2]))]
+    else:
+        by_cfg = {}
+        for t in tasks:
+            by_cfg.setdefault(t[0], []).append(t)
+        groups = sorted(by_cfg.values(), key=lambda g: -sum(t[1][0] ** t[2] for t in g))
     import concurrent.futures as cf
     ex = cf.ProcessPoolExecutor(max_workers=min(vlib.NCPU, len(groups)), mp_context=mp.get_context("spawn"))
     futs = [ex.submit(_cfg_task, g) for g in groups]
